@@ -3,6 +3,7 @@ TRUSTED_BASE = [
     "clang 14 front end: JSON AST (name lookup, overload resolution, template instantiation, if-constexpr selection) and record layouts",
     "tools/cxx2c.py printer (AST -> C): rewrite rules listed in DESIGN.md 2.2; every unknown node/type aborts with exit 2",
     "cbmc 6.11.0 / goto-cc / goto-instrument --dfcc (contract instrumentation, SAT back end MiniSat)",
+    "tools/symx.py VC generator with its domains (RING: exact polynomials; GROUP: Z_r-modules + integer scalars; WORD: machine words as exact integer polynomials with carry symbols, tools/worddom.py) and tools/poly.py normal forms",
     "little-endian byte order; 64-bit words with unsigned __int128 double words (the configuration extracted)",
 ]
 GLOBAL_ASSUMPTIONS = [
@@ -20,6 +21,12 @@ WKD_EXPL = ("Per-operation proof at the group level: the real bodies of src/wkdi
             "z3 for the integer side conditions of the 256-bit scalar code, with the model replayed natively). Because well-formedness is established by keygen and preserved by every step, every finite "
             "history yields a well-formed key (induction over histories, on paper). Bounded in l only; reported as bounded obligations, not as discharged proof obligations.")
 META = {
+    "C02": dict(level="proof", assumptions=[
+        "WORD units (multiply, square, Montgomery product / reduction, divide_std_dword): every word is 0 <= w < 2^64 and nothing else is assumed; results are exact polynomial identities; the only non-polynomial steps are monotone bounds on non-negative integers (T*R == A*B + U*p with A, B < p, U < R gives T < 2p; a carry dropped above the top word of a product that fits is 0), spelled out in contracts/fpmulw.py",
+        "Fp::multiply / square / montgomery_reduce end in FpBase::reduce, which enters through its own CBMC contract (argument < 2p => result == argument mod p, < p)",
+        "fp_inverse: partial correctness by an inductive invariant over the three loops (b == K*u, c == K*v mod p); each 'multiple of p' claim carries an explicit certificate m*X == p*Y + sum c_i*rel_i that is re-checked exactly; K exists because the modulus is prime (Miller-Rabin, 64 bases); infeasible integer branches pruned with z3 (QF_LIA); termination (gcd(u,v) == 1) not proved",
+        "exponentiate / Legendre / square roots: exponent view with loop cuts; Euler's criterion and the Tonelli-Shanks / q == 3 (mod 4) formulas are textbook facts applied to the proved exponents",
+        "the assembly back ends that replace these routines on x86-64 are C03 (bigint.s covered; multiply.s / bmi2 not)"]),
     "C11": dict(level="other", explanation=WKD_EXPL, assumptions=GROUP_ASSUME),
     "C12": dict(level="other", explanation=WKD_EXPL, assumptions=GROUP_ASSUME),
     "C13": dict(level="other", explanation=WKD_EXPL, assumptions=GROUP_ASSUME),
@@ -28,7 +35,8 @@ META = {
         "telescoping lemma (paper): scalar = c_0, c_j = 2 c_{j+1} + d_j (proved per iteration, no wrap), c_n = 0  ==>  scalar = sum d_j 2^j",
         "Horner lemma (paper): acc' = 2 acc + (digit contribution) per iteration (proved for every digit and every accumulator value)  ==>  acc_final = (sum digits 2^j) * P",
         "G1::endomorphism acts as [lambda] and the twisted Frobenius as [q] = [x] on the order-r subgroups (CM / Frobenius theory; the constants' closed facts are checked)",
-        "integer contracts of BigInt::multiply (exact product) and BigInt::divide_std_dword<|x|> (a = q d + rem) are ASSUMED in the decomposition units (not yet enforced by a BV unit)",
+        "integer contracts of BigInt::multiply (exact product) and BigInt::divide_std_dword<|x|> (a = q d + rem, rem < d) used by the decomposition units are enforced by the WORD units (contracts/fpmulw.py, contracts/decomp.py); the 128-bit / and % operators are the Euclidean pair of the C definition",
+        "decompose_lambda (words): products and the rounded quotient are ghost values with the range axiom P <= (2^128-1)*v2_1; the recombination identity over them is the integer-level unit",
         "loop-cut representative index: the digit loops are checked at one representative position i; every other digit cell is poisoned, so any other access would be reported",
         "termination of rejection / retry loops is not verified"]),
     "C01": dict(level="other", explanation=("Refinement to the reference algorithm, piece by piece: (i) the real miller_loop / G2Prepared::prepare, executed for their 62+1 iterations with the step functions as uninterpreted "
